@@ -8,4 +8,6 @@ def check(ctx, rep):
     # is shared between parses (class-level containers, mutable defaults)
     from ..rules import eff as _eff
     _eff.eff_1(ctx, rep, only=[('parso/grammar.py', 'Grammar.parse')], minimum=20)
+    from ..rules import par as _par14
+    _par14.par_14(ctx, rep)     # INDENT / DEDENT bookkeeping sees every token once (not the tokens recovery re-feeds)
     rep.note('Not decided: equality of the two result trees as values.')
